@@ -142,6 +142,23 @@ def handle (op : String) (args : List String) : Option String :=
       match rest with
       | [hex] => (hexBytes? hex).map (plyClass h)
       | _ => none
+  | "c14.holds.rejects_token_losing_cut", fmt :: _k :: rest => do
+      -- a strict prefix (ASCII: cut at a token boundary) on which the implementation returned `implClass`:
+      -- true iff that is the verdict of the model reader on the same bytes — an error whenever the theorems of
+      -- Props/C14 say the cut is rejected, the complete result (same counts) only where they allow it
+      let clsOf ← match fmt with
+        | "stl" => some (fun (_ : List String) => some (stlClass, ([] : List String)))
+        | "pts" => some (fun _ => some (ptsClass, []))
+        | "spz" => some (fun _ => some (spzClass, []))
+        | "ply" => some (fun r => (hdr? r).map fun (h, rest) => (plyClass h, rest))
+        | _ => none
+      let (cls, rest') ← clsOf rest
+      let rest' := if fmt == "ply" then rest' else rest
+      match rest' with
+      | [hex, implClass] => do
+          let bs ← hexBytes? hex
+          pure (boolStr (cls bs == implClass))
+      | _ => none
   | "c14.holds.prefix_only", _fmt :: streamed :: _k :: rest => do
       let (x, rest) ← summary? rest ⟨[], []⟩
       let (m, _) ← summary? rest ⟨[], []⟩
